@@ -299,3 +299,166 @@ Proof.
     + apply on_ack_exact; assumption.
     + apply on_syn_exact. exact H.
 Qed.
+
+(* ------------------------------------------------------------------ isolation, spelled out *)
+Lemma remove_stream_keeps_others l k en : In en l -> se_key en <> k -> In en (remove_stream l k).
+Proof.
+  intros Hin Hne. unfold remove_stream. apply filter_In. split; [exact Hin|].
+  destruct (skey_eqb (se_key en) k) eqn:E; [apply skey_eqb_eq in E; contradiction|reflexivity].
+Qed.
+
+Lemma remove_stream_incl l k : incl (remove_stream l k) l.
+Proof. intros en H. unfold remove_stream in H. apply filter_In in H. tauto. Qed.
+
+Definition iso_concl (s : dstate) (addr : Z) (m : dmsg) (s' : dstate) (e : list devent) : Prop :=
+  let k := {| k_addr := addr; k_conn := dm_conn m |} in
+  (* forwarded to no other connection, and then nothing else happens *)
+  (forall k0, In (EvForward k0) e -> k0 = k /\ e = [EvForward k] /\ s' = s) /\
+  (* every entry under another key is still there, the very same entry (object, liveness) *)
+  (forall en, In en (d_streams s) -> se_key en <> k -> In en (d_streams s')) /\
+  (* at most one entry is created: by a SYN under (addr, id + 1), by a ST_STATE under (addr, id),
+     only when no connection claimed the datagram, only under a key that was free *)
+  (forall en, In en (d_streams s') -> In en (d_streams s) \/
+     (find_stream s k = None /\ d_streams s' = d_streams s ++ [en] /\ se_alive en = true /\
+      ~ In (se_key en) (keys (d_streams s)) /\
+      ((dm_type m = ST_SYN /\ se_key en = syn_key (syn_of addr m)) \/
+       (dm_type m = ST_STATE /\ se_key en = k)))) /\
+  (* at most this SYN is queued, and then nothing else happens to table or wire *)
+  (d_syns s' = d_syns s \/
+   (dm_type m = ST_SYN /\ find_stream s k = None /\ d_syns s' = d_syns s ++ [syn_of addr m] /\
+    d_streams s' = d_streams s /\ e = [])) /\
+  (* at most one reply: the reset refusing this SYN, and then nothing else happens *)
+  (forall a c q, In (EvSentRst a c q) e ->
+     dm_type m = ST_SYN /\ find_stream s k = None /\ e = [EvSentRst addr (dm_conn m) (dm_seq m)] /\
+     d_streams s' = d_streams s /\ d_syns s' = d_syns s) /\
+  (forall a c q, ~ In (EvSentSyn a c q) e) /\
+  (* pending connects: at most one is completed, of this address, by a ST_STATE acknowledging its SYN *)
+  (forall a, pending s' a = pending s a \/
+     (a = addr /\ dm_type m = ST_STATE /\ find_stream s k = None /\
+      exists c m1 m2, pending s a = m1 ++ c :: m2 /\ cn_seq c = dm_ack m /\ pending s' a = m1 ++ m2)) /\
+  d_control s' = d_control s /\ d_next_conn_id s' = d_next_conn_id s /\
+  d_max_streams s' = d_max_streams s /\ d_dead_connectors s' = d_dead_connectors s /\
+  d_dead_acceptors s' = d_dead_acceptors s.
+
+Ltac iso_single :=
+  match goal with
+  | |- forall k0, In (EvForward k0) [EvForward _] -> _ =>
+      let H := fresh in intros ? [H|[]]; injection H as <-; auto
+  | |- forall k0, In _ [_] -> _ => let H := fresh in intros ? [H|[]]; discriminate H
+  | |- forall k0, In _ [] -> _ => intros ? []
+  | |- forall a c q, In _ [_] -> _ => let H := fresh in intros ? ? ? [H|[]]; discriminate H
+  | |- forall a c q, In _ [] -> _ => intros ? ? ? []
+  | |- forall a c q, ~ In _ [_] => let H := fresh in intros ? ? ? [H|[]]; discriminate H
+  | |- forall a c q, ~ In _ [] => intros ? ? ? []
+  end.
+
+Lemma in_app_single {A} (l : list A) x y : In y (l ++ [x]) -> In y l \/ y = x.
+Proof. intro H. apply in_app_or in H. destruct H as [H|[H|[]]]; auto. Qed.
+
+Theorem disp_isolation s addr m s' e :
+  d_inv s -> on_recv s addr m = (s', e) -> iso_concl s addr m s' e.
+Proof.
+  intros Hinv H. pose proof (on_recv_exact _ _ _ _ _ Hinv H) as Heff.
+  unfold recv_effect in Heff. unfold iso_concl. cbv zeta in *.
+  set (k := {| k_addr := addr; k_conn := dm_conn m |}) in *.
+  assert (Hquiet : forall x, (forall k0, x <> EvForward k0 \/ x = EvForward k) ->
+            (forall a c q, x <> EvSentRst a c q) -> (forall a c q, x <> EvSentSyn a c q) ->
+            s' = s -> e = [x] ->
+            (forall k0, In (EvForward k0) e -> k0 = k /\ e = [EvForward k] /\ s' = s) /\
+            (forall en, In en (d_streams s) -> se_key en <> k -> In en (d_streams s')) /\
+            (forall en, In en (d_streams s') -> In en (d_streams s) \/
+               (find_stream s k = None /\ d_streams s' = d_streams s ++ [en] /\ se_alive en = true /\
+                ~ In (se_key en) (keys (d_streams s)) /\
+                ((dm_type m = ST_SYN /\ se_key en = syn_key (syn_of addr m)) \/
+                 (dm_type m = ST_STATE /\ se_key en = k)))) /\
+            (d_syns s' = d_syns s \/
+             (dm_type m = ST_SYN /\ find_stream s k = None /\ d_syns s' = d_syns s ++ [syn_of addr m] /\
+              d_streams s' = d_streams s /\ e = [])) /\
+            (forall a c q, In (EvSentRst a c q) e ->
+               dm_type m = ST_SYN /\ find_stream s k = None /\ e = [EvSentRst addr (dm_conn m) (dm_seq m)] /\
+               d_streams s' = d_streams s /\ d_syns s' = d_syns s) /\
+            (forall a c q, ~ In (EvSentSyn a c q) e) /\
+            (forall a, pending s' a = pending s a \/
+               (a = addr /\ dm_type m = ST_STATE /\ find_stream s k = None /\
+                exists c m1 m2, pending s a = m1 ++ c :: m2 /\ cn_seq c = dm_ack m /\ pending s' a = m1 ++ m2)) /\
+            d_control s' = d_control s /\ d_next_conn_id s' = d_next_conn_id s /\
+            d_max_streams s' = d_max_streams s /\ d_dead_connectors s' = d_dead_connectors s /\
+            d_dead_acceptors s' = d_dead_acceptors s).
+  { intros x Hf Hr Hsy -> ->.
+    split.
+    { intros k0 [Hx|[]]. destruct (Hf k0) as [Hne|Heq]; [congruence|].
+      rewrite Heq in Hx. injection Hx as <-. rewrite Heq. auto. }
+    split; [auto|]. split; [auto|]. split; [auto|].
+    split; [intros a c q [Hx|[]]; exfalso; exact (Hr a c q Hx)|].
+    split; [intros a c q [Hx|[]]; exact (Hsy a c q Hx)|].
+    split; [auto|]. repeat split. }
+  destruct (find_stream s k) as [en0|] eqn:Ef.
+  - destruct (se_alive en0) eqn:Ea; destruct Heff as [Hs He].
+    + apply (Hquiet (EvForward k)); auto; try discriminate.
+    + subst s' e. dsimpl.
+      split; [iso_single|].
+      split; [intros en Hin Hne; apply remove_stream_keeps_others; assumption|].
+      split; [intros en Hin; left; eapply remove_stream_incl; exact Hin|].
+      split; [auto|]. split; [iso_single|]. split; [iso_single|].
+      split; [intro a; left; apply pending_same_connecting; reflexivity|]. repeat split.
+  - destruct (dm_type m) eqn:Et;
+      try (destruct Heff as [Hs He]; apply (Hquiet EvDropped); auto; try discriminate; intros; left; discriminate).
+    + (* ST_STATE *)
+      destruct Heff as [[Hs He]|(c & m1 & m2 & _ & P1 & P2 & P3 & P4 & P5 & F1 & F2 & F3 & F4 & F5 & F6 & F7 & Hcase)].
+      { apply (Hquiet EvDropped); auto; try discriminate. intros; left; discriminate. }
+      assert (Hpend : forall a, pending s' a = pending s a \/
+               (a = addr /\ ST_STATE = ST_STATE /\ @None sentry = None /\
+                exists c m1 m2, pending s a = m1 ++ c :: m2 /\ cn_seq c = dm_ack m /\ pending s' a = m1 ++ m2)).
+      { intro a. destruct (Z.eq_dec a addr) as [->|Hne]; [|left; apply P5; exact Hne].
+        right. split; [reflexivity|]. split; [reflexivity|]. split; [reflexivity|].
+        exists c, m1, m2. auto. }
+      assert (Hmax : d_max_streams s' = d_max_streams s /\ d_dead_acceptors s' = d_dead_acceptors s).
+      { destruct (on_maybe_connect_ack_spec _ _ _ _ _ Hinv Ef ltac:(unfold on_recv in H; fold k in H; rewrite Ef, Et in H; exact H))
+          as (_ & B & _).
+        split; [exact B|].
+        unfold on_recv in H. fold k in H. rewrite Ef, Et in H.
+        exact (proj2 (on_maybe_connect_ack_handed _ _ _ _ _ H)). }
+      destruct Hmax as [Hmax Hda].
+      destruct Hcase as [(Hd & -> & S1 & S2)|(Hd & -> & S1 & S2)].
+      * split; [iso_single|]. split; [intros en Hin _; rewrite S1; exact Hin|].
+        split; [intros en Hin; left; rewrite <- S1; exact Hin|].
+        split; [left; exact F3|]. split; [iso_single|]. split; [iso_single|].
+        split; [exact Hpend|]. repeat split; assumption.
+      * split; [iso_single|].
+        split; [intros en Hin _; rewrite S1; apply in_or_app; left; exact Hin|].
+        split.
+        { intros en Hin. rewrite S1 in Hin. apply in_app_single in Hin. destruct Hin as [Hin| ->]; [left; exact Hin|].
+          right. split; [reflexivity|]. split; [exact S1|]. split; [reflexivity|].
+          split; [exact (find_none_not_in _ _ Ef)|]. right. split; reflexivity. }
+        split; [left; exact F3|]. split; [iso_single|]. split; [iso_single|].
+        split; [exact Hpend|]. repeat split; assumption.
+    + (* ST_SYN *)
+      destruct Heff as (K & _ & Hcase). destruct K as (K1 & K2 & K3 & K4 & K5 & K6 & K7).
+      assert (Hpend : forall a, pending s' a = pending s a \/
+               (a = addr /\ ST_SYN = ST_STATE /\ @None sentry = None /\
+                exists c m1 m2, pending s a = m1 ++ c :: m2 /\ cn_seq c = dm_ack m /\ pending s' a = m1 ++ m2))
+        by (intro a; left; apply pending_same_connecting; exact K5).
+      destruct Hcase as [(a & -> & S1 & S2 & S3 & S4 & S5 & S6)|[(-> & S1 & S2 & S3 & S4 & S5)|
+                         [(-> & S1 & S2 & S3 & S4)|(-> & S1 & S2 & S3 & S4)]]].
+      * split; [iso_single|].
+        split; [intros en Hin _; rewrite S1; apply in_or_app; left; exact Hin|].
+        split.
+        { intros en Hin. rewrite S1 in Hin. apply in_app_single in Hin. destruct Hin as [Hin| ->]; [left; exact Hin|].
+          right. split; [reflexivity|]. split; [exact S1|]. split; [reflexivity|].
+          split; [exact S5|]. left. split; reflexivity. }
+        split; [left; exact S3|]. split; [iso_single|]. split; [iso_single|].
+        split; [exact Hpend|]. repeat split; assumption.
+      * split; [iso_single|]. split; [intros en Hin _; rewrite S1; exact Hin|].
+        split; [intros en Hin; left; rewrite <- S1; exact Hin|].
+        split; [left; exact S3|]. split; [iso_single|]. split; [iso_single|].
+        split; [exact Hpend|]. repeat split; assumption.
+      * split; [iso_single|]. split; [intros en Hin _; rewrite S1; exact Hin|].
+        split; [intros en Hin; left; rewrite <- S1; exact Hin|].
+        split; [right; auto|]. split; [iso_single|]. split; [iso_single|].
+        split; [exact Hpend|]. repeat split; assumption.
+      * split; [iso_single|]. split; [intros en Hin _; rewrite S1; exact Hin|].
+        split; [intros en Hin; left; rewrite <- S1; exact Hin|].
+        split; [left; exact S3|].
+        split; [intros a c q [Hx|[]]; injection Hx as <- <- <-; auto|]. split; [iso_single|].
+        split; [exact Hpend|]. repeat split; assumption.
+Qed.
